@@ -1,6 +1,7 @@
 package edwards448
 
 import (
+	"crypto/subtle"
 	"errors"
 
 	"github.com/shogo82148/goat/internal/edwards448/field"
@@ -121,6 +122,13 @@ func (v *Point) SetBytes(data []byte) (*Point, error) {
 	var y field.Element
 	y.SetBytes(data[:56])
 
+	// RFC 8032 Section 5.2.3: decoding fails if y >= p.
+	// The low 7 bits of the last octet are the most significant bits of y,
+	// so they must be zero as well.
+	if subtle.ConstantTimeCompare(y.Bytes(), data[:56]) == 0 || data[56]&0x7f != 0 {
+		return nil, errors.New("edwards448: invalid point encoding")
+	}
+
 	// x² + y² = 1 + dx²y²
 	// dx²y² - x² = x²(dy² - 1) = y² - 1
 	// x² = (y² - 1) / (dy² - 1)
@@ -145,6 +153,11 @@ func (v *Point) SetBytes(data []byte) (*Point, error) {
 	x.Select(&xNeg, &x, int(data[56]>>7)^x.IsNegative())
 
 	if wasSquare == 0 {
+		return nil, errors.New("edwards448: invalid point encoding")
+	}
+
+	// RFC 8032 Section 5.2.3: decoding fails if x = 0 and the sign bit is set.
+	if x.Equal(new(field.Element)) == 1 && data[56]>>7 == 1 {
 		return nil, errors.New("edwards448: invalid point encoding")
 	}
 
